@@ -7,7 +7,7 @@ CONSTANTS
  TagDels = {0, 1}
  SubjSel = {"ror"}
  Spells = {"dig"}
- Dopts = {"check", "man"}
+ Dopts = {"check"}
  MaxOps = 3
  MaxConc = 3
  SameSubject = TRUE
